@@ -18,6 +18,7 @@ import (
 	"fmt"
 	"hash/fnv"
 	"net/http"
+	"os"
 	"sort"
 	"strings"
 	"time"
@@ -98,7 +99,11 @@ func (c07) FaultKinds() []string {
 	return []string{"F3_preemption_fired", "F3_reentrant_at_header", "F3_reentrant_at_writeheader", "F3_reentrant_at_handler", "F1_rejected_reconfigure", "F2_restore"}
 }
 func (c07) Probes() []string {
-	return []string{"req_overlapped_1_state_change", "req_overlapped_2_state_changes", "acquire_parked", "passthrough_flip_during_request", "rejected_reconfigure_overlapped_request", "writer_preempted_in_critical_section", "preempt_between_snapshot_and_dispatch", "histories_checked", "porcupine_ok"}
+	ps := []string{"req_overlapped_1_state_change", "req_overlapped_2_state_changes", "passthrough_flip_during_request", "rejected_reconfigure_overlapped_request", "histories_checked", "porcupine_ok"}
+	if os.Getenv("VERIF_LOCK_SEAMS") != "0" { // a tree without lock operations (atomics only) cannot reach these
+		ps = append(ps, "acquire_parked", "writer_preempted_in_critical_section", "preempt_between_snapshot_and_dispatch")
+	}
+	return ps
 }
 
 // ---------------------------------------------------------------- generation
@@ -186,10 +191,19 @@ func discriminating(r *R, cfgs []Cfg, n int) []Req {
 	sort.SliceStable(sc, func(i, j int) bool { return sc[i].d > sc[j].d })
 	var out []Req
 	top := max(4, len(sc)/4)
+	var actual []scored // non-preflight CORS requests whose answer separates at least two states
+	for _, x := range sc {
+		if _, hasO := x.q.get(hOrigin); hasO && !isPreflightReq(x.q) && x.d >= 2 {
+			actual = append(actual, x)
+		}
+	}
 	for i := 0; i < n; i++ {
-		if r.P(0.8) {
+		switch x := r.Intn(20); {
+		case x < 5 && len(actual) > 0:
+			out = append(out, actual[r.Intn(min(len(actual), 6))].q)
+		case x < 16:
 			out = append(out, sc[r.Intn(top)].q)
-		} else {
+		default:
 			out = append(out, sc[r.Intn(len(sc))].q)
 		}
 	}
@@ -220,6 +234,12 @@ func (e c07) Gen(r *R, tier string) any {
 		var t CTask
 		for _, q := range discriminating(r, p.Cfgs, k) {
 			q := q
+			// follow-up traffic: a third of the requests repeat an earlier request of
+			// the run (same client or another one) — what a stale per-middleware cache
+			// filled by an in-flight request would be observed through
+			if prev := allReqs(p.Tasks, t); len(prev) > 0 && r.P(0.33) {
+				q = prev[r.Intn(len(prev))]
+			}
 			op := COp{Kind: "req", Req: &q}
 			if r.P(0.3) {
 				for j := r.Range(1, 2); j > 0; j-- {
@@ -276,6 +296,18 @@ func (e c07) Gen(r *R, tier string) any {
 		p.Preempts = append(p.Preempts, Preempt{Task: vt, Op: vo, Yield: y, To: to, Burst: pick(r, []int{1, 1, 2, 2, 3})})
 	}
 	return p
+}
+
+func allReqs(tasks []CTask, cur CTask) []Req {
+	var out []Req
+	for _, t := range append(append([]CTask{}, tasks...), cur) {
+		for _, op := range t.Ops {
+			if op.Req != nil {
+				out = append(out, *op.Req)
+			}
+		}
+	}
+	return out
 }
 
 func (c07) Decode(b []byte) (any, error) {
